@@ -250,8 +250,13 @@ func (smpStateExpect1) startAuthenticate(c *Conversation, question string, mutua
 		s1.msg.question = question
 	}
 
+	t := s1.msg.tlv()
+	if int(t.tlvLength) != len(t.tlvValue) {
+		return nil, newOtrError("SMP question does not fit into a TLV")
+	}
+
 	c.smp.s1 = &s1
 	c.smp.state = smpStateExpect2{}
 
-	return []tlv{s1.msg.tlv()}, nil
+	return []tlv{t}, nil
 }
